@@ -25,6 +25,8 @@ type fuzzResult struct {
 	Execs    int64
 	Seconds  float64
 	Baseline bool
+	// SeedIndex: for a baseline failure, the index of the failing f.Add entry (-1: unknown)
+	SeedIndex int
 }
 
 var (
@@ -58,12 +60,15 @@ func parseCorpusFile(path string) ([]string, error) {
 			}
 			out = append(out, u)
 		case "byte", "rune":
-			u, _, _, err := strconv.UnquoteChar(strings.Trim(val, "'"), '\'')
-			if err != nil {
-				out = append(out, val)
-			} else {
-				out = append(out, string(rune(u)))
+			// numeric value as a decimal string
+			if len(val) >= 2 && val[0] == '\'' {
+				u, _, _, err := strconv.UnquoteChar(val[1:len(val)-1], '\'')
+				if err == nil {
+					out = append(out, strconv.Itoa(int(u)))
+					break
+				}
 			}
+			out = append(out, val)
 		default:
 			out = append(out, val)
 		}
@@ -100,9 +105,14 @@ func runNativeFuzz(c *drv.Ctx, dir, target string, d time.Duration, extraEnv ...
 		res.Failed, res.Args = true, args
 		return res, nil
 	}
-	if strings.Contains(res.Output, "--- FAIL") && !strings.Contains(res.Output, "fuzz: elapsed") {
-		// a seed corpus entry fails before fuzzing starts
+	if strings.Contains(res.Output, "--- FAIL") {
+		// a seed corpus entry fails before fuzzing starts: "--- FAIL: FuzzX/seed#N"
 		res.Failed, res.Baseline = true, true
+		if m := regexp.MustCompile(`/seed#(\d+)`).FindStringSubmatch(res.Output); m != nil {
+			res.SeedIndex, _ = strconv.Atoi(m[1])
+		} else {
+			res.SeedIndex = -1
+		}
 		return res, nil
 	}
 	return res, fmt.Errorf("go test -fuzz: %v\n%s", err, tail(res.Output, 1500))
